@@ -10,12 +10,15 @@
 package main
 
 import (
+	"fmt"
 	"math/big"
 	"net"
+	"os"
 	"strings"
 
 	"bfeverif/harness/internal/vh"
 	"github.com/bfenetworks/bfe/bfe_util/ipdict"
+	"github.com/bfenetworks/bfe/bfe_util/ipdict/txt_load"
 )
 
 var v4base = new(big.Int).SetUint64(0xffff00000000)
@@ -66,7 +69,7 @@ func bases(r *vh.Rand) []*big.Int {
 
 type rng struct{ s, e *big.Int }
 
-func gen(r *vh.Rand) string {
+func genStep(r *vh.Rand, small bool) (string, string, []string) {
 	bs := bases(r)
 	var n int
 	switch r.Intn(10) {
@@ -76,6 +79,9 @@ func gen(r *vh.Rand) string {
 		n = r.Range(13, 40) // beyond the insertion-sort threshold of sort.Sort
 	default:
 		n = r.Range(2, 9)
+	}
+	if small {
+		n = r.Range(0, 5)
 	}
 	spread := []int{8, 24, 64, 64}[r.Intn(4)]
 	var rs []rng
@@ -171,7 +177,50 @@ func gen(r *vh.Rand) string {
 		}
 		return strings.Join(x, ",")
 	}
-	return "r=" + j(rtok) + ";s=" + j(stok) + ";p=" + j(ptok)
+	return "r=" + j(rtok), "s=" + j(stok), ptok
+}
+
+func joinP(ptok []string) string {
+	if len(ptok) == 0 {
+		return "p=."
+	}
+	return "p=" + strings.Join(ptok, ",")
+}
+
+// gen: 3 of 4 cases are one table (one Update); 1 of 4 is an update history of 2-6 steps on one IPTable:
+// direct Update / Update(nil) / file load through txt_load.CheckAndLoad, versions from a tiny set (empty, equal to
+// the previous one, different), each step probed with its own boundary probes AND those of the previous step
+// (an answer served from the previous items is then visible).
+func gen(r *vh.Rand) string {
+	if !r.Chance(1, 4) {
+		rs, ss, pt := genStep(r, false)
+		return rs + ";" + ss + ";" + joinP(pt)
+	}
+	vers := []string{"-", "31", "32", "312e31"}
+	var steps []string
+	var prev []string
+	ver := vers[r.Intn(len(vers))]
+	n := r.Range(2, 6)
+	for i := 0; i < n; i++ {
+		if i > 0 && !r.Chance(1, 2) {
+			ver = vers[r.Intn(len(vers))]
+		}
+		rs, ss, pt := genStep(r, true)
+		probes := append(append([]string(nil), pt...), prev...)
+		if len(probes) > 60 {
+			probes = probes[:60]
+		}
+		prev = pt
+		switch x := r.Intn(20); {
+		case x < 2:
+			steps = append(steps, "k=n;r=.;s=.;"+joinP(probes))
+		case x < 9:
+			steps = append(steps, "k=f;v="+ver+";"+rs+";"+ss+";"+joinP(probes))
+		default:
+			steps = append(steps, "v="+ver+";"+rs+";"+ss+";"+joinP(probes))
+		}
+	}
+	return strings.Join(steps, "|")
 }
 
 func parseIP(tok string) net.IP {
@@ -200,52 +249,154 @@ func list(s string) []string {
 	return strings.Split(s, ",")
 }
 
+// exec runs a history: steps separated by '|', all on ONE IPTable.
+//   step = [k=<u|n|f>;][v=<hex version>;]r=..;s=..;p=..
+//   k=u (default) build IPItems by InsertPair/InsertSingle + Sort(), set Version, IPTable.Update(items)
+//   k=n           IPTable.Update(nil)
+//   k=f           write the step as an IP dict file (meta comment line iff the version is not empty), load it the way
+//                 mod_block does: txt_load.CheckAndLoad(table.Version()), and Update only when it returned items
+// step result = e=..;f=..;s1=..;m=..;s2=..;t=..;ld=<ok|nil|skip|err>;ver=<hex of table.Version()>;q=<Search answers>
 func exec(op string) string {
+	table := ipdict.NewIPTable()
+	var out []string
+	for _, st := range strings.Split(op, "|") {
+		r := step(table, st)
+		out = append(out, r)
+		if !strings.HasPrefix(r, "e=") {
+			return r
+		}
+	}
+	return strings.Join(out, "|")
+}
+
+func dot(s string) string {
+	if s == "" {
+		return "."
+	}
+	return s
+}
+
+func ipText(tok string) string {
+	ip := parseIP(tok)
+	if len(ip) != 4 && len(ip) != 16 {
+		return "bad"
+	}
+	return ip.String()
+}
+
+func step(table *ipdict.IPTable, op string) string {
+	kind, ver := "u", ""
 	secs := strings.Split(op, ";")
+	for len(secs) > 0 && (strings.HasPrefix(secs[0], "k=") || strings.HasPrefix(secs[0], "v=")) {
+		if strings.HasPrefix(secs[0], "k=") {
+			kind = secs[0][2:]
+		} else {
+			vb, ok := vh.UnHex(secs[0][2:])
+			if !ok {
+				return "bad-op"
+			}
+			ver = string(vb)
+		}
+		secs = secs[1:]
+	}
 	if len(secs) != 3 || !strings.HasPrefix(secs[0], "r=") || !strings.HasPrefix(secs[1], "s=") || !strings.HasPrefix(secs[2], "p=") {
 		return "bad-op"
 	}
-	rt, st, pt := list(secs[0][2:]), list(secs[1][2:]), list(secs[2][2:])
-	a, err1 := ipdict.NewIPItems(len(st), len(rt)) // the checked object: real Sort()
-	b, err2 := ipdict.NewIPItems(len(st), len(rt)) // the stepped twin: learns sort.Sort's permutations
-	if err1 != nil || err2 != nil {
-		return "new:err"
-	}
-	var e, f, q strings.Builder
-	for _, t := range rt {
-		p := strings.Split(t, ":")
-		if len(p) != 2 {
+	for _, c := range ver {
+		if !(c >= '0' && c <= '9' || c >= 'a' && c <= 'z' || c == '.') {
 			return "bad-op"
 		}
-		sa, sb := p[0], p[1]
-		erA := a.InsertPair(parseIP(sa), parseIP(sb))
-		erB := b.InsertPair(parseIP(sa), parseIP(sb))
-		if (erA == nil) != (erB == nil) {
+	}
+	rt, st, pt := list(secs[0][2:]), list(secs[1][2:]), list(secs[2][2:])
+	var e, f, q strings.Builder
+	var s1, s2, tab []ipdict.VerifPair
+	m := 0
+	ld := "ok"
+	switch kind {
+	case "n":
+		table.Update(nil)
+		ld = "nil"
+	case "u", "f":
+		a, err1 := ipdict.NewIPItems(len(st)+len(rt), len(rt)) // the checked object (k=u): real Sort()
+		b, err2 := ipdict.NewIPItems(len(st)+len(rt), len(rt)) // the stepped twin: learns sort.Sort's permutations
+		if err1 != nil || err2 != nil {
+			return "new:err"
+		}
+		var lines []string
+		nSingle, nPair := 0, 0
+		for _, t := range rt {
+			p := strings.Split(t, ":")
+			if len(p) != 2 {
+				return "bad-op"
+			}
+			ia, ib := parseIP(p[0]), parseIP(p[1])
+			lines = append(lines, ipText(p[0])+" "+ipText(p[1]))
+			if kind == "f" && ia.To16() != nil && ib.To16() != nil && ia.To16().Equal(ib.To16()) {
+				// CheckAndLoad inserts a line with equal start and end as a single address
+				b.InsertSingle(ia)
+				nSingle++
+				e.WriteByte('2')
+				continue
+			}
+			nPair++
+			erA := a.InsertPair(ia, ib)
+			erB := b.InsertPair(ia, ib)
+			if (erA == nil) != (erB == nil) {
+				return "hook-diverged"
+			}
+			if erA != nil {
+				e.WriteByte('1')
+			} else {
+				e.WriteByte('0')
+			}
+		}
+		for _, t := range st {
+			lines = append(lines, ipText(t))
+			nSingle++
+			erA := a.InsertSingle(parseIP(t))
+			b.InsertSingle(parseIP(t))
+			if erA != nil {
+				f.WriteByte('1')
+			} else {
+				f.WriteByte('0')
+			}
+		}
+		if kind == "u" {
+			s1, m, s2 = b.VerifSortSteps()
+			a.Sort()
+			a.Version = ver
+			tab = a.VerifItems()
+			table.Update(a)
+		} else {
+			fh, err := os.CreateTemp("", "verif-c19-*.dict")
+			if err != nil {
+				return "tmp:err"
+			}
+			if ver != "" {
+				fmt.Fprintf(fh, "#{\"version\":\"%s\",\"singleIPNum\":%d,\"pairIPNum\":%d}\n", ver, nSingle, nPair)
+			}
+			fh.WriteString(strings.Join(lines, "\n") + "\n")
+			fh.Close()
+			loaded, err := txt_load.NewTxtFileLoader(fh.Name()).CheckAndLoad(table.Version())
+			os.Remove(fh.Name())
+			switch {
+			case err == nil && loaded != nil:
+				s1, m, s2 = b.VerifSortSteps()
+				tab = loaded.VerifItems()
+				table.Update(loaded)
+			case err == txt_load.ErrNoNeedUpdate:
+				ld = "skip"
+			default:
+				ld = "err"
+			}
+		}
+		// the twin must agree with the real Sort(): same table = s2 truncated by m
+		if ld == "ok" && (len(s2)-m != len(tab) || items(s2[:len(tab)]) != items(tab)) {
 			return "hook-diverged"
 		}
-		if erA != nil {
-			e.WriteByte('1')
-		} else {
-			e.WriteByte('0')
-		}
+	default:
+		return "bad-op"
 	}
-	for _, t := range st {
-		erA := a.InsertSingle(parseIP(t))
-		if erA != nil {
-			f.WriteByte('1')
-		} else {
-			f.WriteByte('0')
-		}
-	}
-	s1, m, s2 := b.VerifSortSteps()
-	a.Sort()
-	tab := a.VerifItems()
-	// the twin must agree with the real Sort(): same table = s2 truncated by m
-	if len(s2)-m != len(tab) || items(s2[:len(tab)]) != items(tab) {
-		return "hook-diverged"
-	}
-	table := ipdict.NewIPTable()
-	table.Update(a)
 	for _, t := range pt {
 		if table.Search(parseIP(t)) {
 			q.WriteByte('1')
@@ -253,14 +404,8 @@ func exec(op string) string {
 			q.WriteByte('0')
 		}
 	}
-	dot := func(s string) string {
-		if s == "" {
-			return "."
-		}
-		return s
-	}
 	return "e=" + dot(e.String()) + ";f=" + dot(f.String()) + ";s1=" + items(s1) + ";m=" + itoa(m) +
-		";s2=" + items(s2) + ";t=" + items(tab) + ";q=" + dot(q.String())
+		";s2=" + items(s2) + ";t=" + items(tab) + ";ld=" + ld + ";ver=" + vh.Hex([]byte(table.Version())) + ";q=" + dot(q.String())
 }
 
 func itoa(n int) string {
